@@ -25,6 +25,15 @@ theorem GoodFin.toCall {tv : Nat} {w0 w : World} {b : Bool} (h : GoodFin (w0.wai
 theorem CallFin.refl (tv : Nat) (w : World) : CallFin tv w w false :=
   ⟨by omega, rfl, rfl, Nat.le_refl _, Nat.le_refl _, fun _ => ⟨rfl, rfl⟩, Nat.le_refl _, fun h => by cases h⟩
 
+/-- releasing the lock when the `with` block is left costs no time and is neither a select() nor a lock wait -/
+theorem CallFin.release {tv : Nat} {w0 w : World} {b : Bool} (h : CallFin tv w0 w b) : CallFin tv w0 w.lockRelease b := by
+  obtain ⟨c1, c2, c3, c4, c5, c6, c7, c8⟩ := h
+  refine ⟨c1, c2, c3, c4, c5, ?_, c7, c8⟩
+  intro h0
+  obtain ⟨z1, z2⟩ := c6 h0
+  exact ⟨by simpa [World.lockRelease, World.nsel, Obs.isSelect] using z1,
+         by simpa [World.lockRelease, World.nlockw, Obs.isLockWait] using z2⟩
+
 /-- `receive` with a finite timeout -/
 theorem receive_fin {κ : Type} (fl : Flavour) (ri : Tmo) (room : κ → Nat) (next : κ → Bytes → κ × Option Item)
     (cons : κ) (eof : Bool) (tv : Nat) (sock : List SockCall) (w : World) :
@@ -109,7 +118,7 @@ theorem clientRecv_fin {κ : Type} (fl : Flavour) (ri : Tmo) (room : κ → Nat)
         | err e => cases e <;> rfl
         | _ => rfl
       rw [hto]
-      exact hrec.afterLock h1 h2 h3 h4 h5 h6 h7 h8 h9
+      exact (hrec.afterLock h1 h2 h3 h4 h5 h6 h7 h8 h9).release
 
 theorem sendPacket_fin (tr : Transport) (fix : Bool) (iov : Int) (ri : Tmo) (chunks : List Bytes) (tv : Nat)
     (sock : List SockCall) (w : World) :
@@ -154,7 +163,7 @@ theorem clientSend_fin (tr : Transport) (fix : Bool) (iov : Int) (ri : Tmo) (lk 
         | err e => cases e <;> rfl
         | _ => rfl
       rw [hto]
-      exact hs.afterLock h1 h2 h3 h4 h5 h6 h7 h8 h9
+      exact (hs.afterLock h1 h2 h3 h4 h5 h6 h7 h8 h9).release
 
 /-- the whole iterator: the sum of the time spent waiting (select + lock) over all `next()` calls of a `for` loop
     stays within the iterator's timeout -/
@@ -214,7 +223,7 @@ theorem udpClientRecv_fin (ri : Tmo) (bufsize : Nat) (lk : Option LockEv) (tv : 
       obtain ⟨tv', e, h1, h2, h3, h4, h5, h6, h7, h8, h9⟩ := hl
       subst e
       simp only []
-      exact (dgramRecv_fin ri bufsize tv' sock w').afterLock h1 h2 h3 h4 h5 h6 h7 h8 h9
+      exact ((dgramRecv_fin ri bufsize tv' sock w').afterLock h1 h2 h3 h4 h5 h6 h7 h8 h9).release
 
 theorem udpClientSend_fin (ri : Tmo) (data : Bytes) (lk : Option LockEv) (tv : Nat) (sock : List SockCall) (w : World) :
     CallFin tv w (udpClientSend ri data lk (some tv) sock w).w
@@ -232,7 +241,7 @@ theorem udpClientSend_fin (ri : Tmo) (data : Bytes) (lk : Option LockEv) (tv : N
       obtain ⟨tv', e, h1, h2, h3, h4, h5, h6, h7, h8, h9⟩ := hl
       subst e
       simp only []
-      exact (dgramSend_fin ri data tv' sock w').afterLock h1 h2 h3 h4 h5 h6 h7 h8 h9
+      exact ((dgramSend_fin ri data tv' sock w').afterLock h1 h2 h3 h4 h5 h6 h7 h8 h9).release
 
 /-- when the lock is not obtained within the budget the socket is never touched (datagram client) -/
 theorem udpClient_lock_timeout_no_io (ri : Tmo) (bufsize : Nat) (data : Bytes) (ev : LockEv) (t : Tmo)
@@ -242,5 +251,105 @@ theorem udpClient_lock_timeout_no_io (ri : Tmo) (bufsize : Nat) (data : Bytes) (
     (udpClientSend ri data (some ev) t sock w).out = .timeout ∧ (udpClientSend ri data (some ev) t sock w).rest = sock ∧
     (udpClientSend ri data (some ev) t sock w).w = w' := by
   simp [udpClientRecv, udpClientSend, h]
+
+/-! ## lock discipline: the release -/
+
+def Obs.isRelease : Obs → Bool
+  | .lockRelease => true
+  | _ => false
+
+/-- number of `lock.release()` calls so far -/
+def World.nrel (w : World) : Nat := w.log.countP Obs.isRelease
+
+theorem retryWait_nrel (ri : Tmo) (b : Blk) (t : Tmo) (w : World) :
+    match retryWait ri b t w with
+    | .cont _ w' => w'.nrel = w.nrel
+    | .timeout w' => w'.nrel = w.nrel
+    | .exhausted w' => w'.nrel = w.nrel
+    | .rterr w' => w'.nrel = w.nrel := by
+  unfold retryWait
+  by_cases hz : t.isZero = true
+  · simp [hz]
+  · simp only [hz, Bool.false_eq_true, if_false]
+    cases hs : w.sel with
+    | nil => simp
+    | cons e sel =>
+      simp only []
+      cases hw : Tmo.waitTime t ri with
+      | none =>
+        by_cases he : e.avail = true <;>
+          simp [he, World.nrel, World.afterSelectU, Obs.isRelease]
+      | some wv =>
+        by_cases hb : (!e.avail && Tmo.le t ri) = true <;>
+          simp [hb, World.nrel, World.afterSelect, Obs.isRelease]
+
+/-- one `_retry` never releases a lock -/
+theorem retry_nrel (cls : SockEv → Cls) (o : Obs) (ho : o.isRelease = false) (ri : Tmo) :
+    ∀ (sock : List SockCall) (t : Tmo) (w : World), (retry cls o ri sock t w).w.nrel = w.nrel := by
+  intro sock
+  induction sock with
+  | nil => intro t w; simp [retry]
+  | cons c rest ih =>
+    intro t w
+    have hc : (w.afterCall o c.p).nrel = w.nrel := by simp [World.nrel, World.afterCall, ho]
+    unfold retry
+    cases hcl : cls c.ev with
+    | ok n => simpa using hc
+    | got b => simpa using hc
+    | err e => simpa using hc
+    | bad => simpa using hc
+    | block b =>
+      have hw := retryWait_nrel ri b t (w.afterCall o c.p)
+      simp only []
+      cases hr : retryWait ri b t (w.afterCall o c.p) with
+      | cont t' w' => rw [hr] at hw; simp only [] at hw ⊢; rw [ih t' w', hw, hc]
+      | timeout w' => rw [hr] at hw; simp only [] at hw ⊢; rw [hw, hc]
+      | exhausted w' => rw [hr] at hw; simp only [] at hw ⊢; rw [hw, hc]
+      | rterr w' => rw [hr] at hw; simp only [] at hw ⊢; rw [hw, hc]
+
+theorem lockWithTimeout_nrel (ev : LockEv) (t : Tmo) (w : World) :
+    match lockWithTimeout ev t w with
+    | .acquired _ w' => w'.nrel = w.nrel
+    | .timeout w' => w'.nrel = w.nrel := by
+  unfold lockWithTimeout
+  cases t with
+  | none => simp [World.nrel, World.afterLockU, Obs.isRelease]
+  | some tv =>
+    cases ev with
+    | free => simp [World.nrel, World.lockTry, Obs.isRelease]
+    | busy d =>
+      simp only []
+      by_cases h0 : tv = 0
+      · simp [h0, World.nrel, World.lockTry, Obs.isRelease]
+      · by_cases hd : d ≤ tv <;>
+          simp [h0, hd, World.nrel, World.lockTry, World.afterLock, Obs.isRelease]
+
+theorem World.nrel_lockRelease (w : World) : w.lockRelease.nrel = w.nrel + 1 := by
+  simp only [World.nrel, World.lockRelease]
+  rw [List.countP_cons_of_pos (by rfl)]
+
+/-- the datagram client releases its lock exactly once when it got it (the release is the last thing the call does),
+    never when it did not -/
+theorem udpClient_release_count (ri : Tmo) (bufsize : Nat) (data : Bytes) (ev : LockEv) (t : Tmo) (sock : List SockCall) (w : World) :
+    (match lockWithTimeout ev t w with
+     | .acquired _ _ => (udpClientRecv ri bufsize (some ev) t sock w).w.nrel = w.nrel + 1 ∧
+                        (udpClientSend ri data (some ev) t sock w).w.nrel = w.nrel + 1 ∧
+                        (udpClientRecv ri bufsize (some ev) t sock w).w.log.head? = some .lockRelease ∧
+                        (udpClientSend ri data (some ev) t sock w).w.log.head? = some .lockRelease
+     | .timeout _ => (udpClientRecv ri bufsize (some ev) t sock w).w.nrel = w.nrel ∧
+                     (udpClientSend ri data (some ev) t sock w).w.nrel = w.nrel) := by
+  have hl := lockWithTimeout_nrel ev t w
+  cases hr : lockWithTimeout ev t w with
+  | timeout w' => rw [hr] at hl; simp only [] at hl ⊢; simp [udpClientRecv, udpClientSend, hr, hl]
+  | acquired t' w' =>
+    rw [hr] at hl
+    simp only [] at hl ⊢
+    have h1 := retry_nrel (classifyRecv .plain) (.rcall bufsize) rfl ri sock t' w'
+    have h2 := retry_nrel (classifySend .plain) (.call data.length 1) rfl ri sock t' w'
+    refine ⟨?_, ?_, ?_, ?_⟩
+    · simp only [udpClientRecv, hr, dgramRecv]; rw [World.nrel_lockRelease, h1, hl]
+    · simp only [udpClientSend, hr, dgramSend]; rw [World.nrel_lockRelease, h2, hl]
+    · simp [udpClientRecv, hr, World.lockRelease]
+    · simp [udpClientSend, hr, World.lockRelease]
 
 end EasyNet
